@@ -268,7 +268,29 @@ def run(ctx):
         ctx.case(key=("symbolic", str(E.sympy)), nontrivial=True,
                  sample={"expr": str(E.sympy)[:200],
                          "symbolic": str(Es.sympy)[:200]}, kind="symbolic")
-    for k in range(n):
+    # systematic chains f_{x0 x1} f_{x1 x2} ... with a power on one link, both
+    # orientations of the links, the ends on X / Y, targets none / first end
+    chains = []
+    for L in (2, 3, 4):
+        for sp_ in "ov":
+            pool_ = G.pool(sp_, 6)
+            for pw_link in range(L):
+                for pw in (2, 3):
+                    xs = pool_[:L + 1]
+                    f_ = 1
+                    for k_ in range(L):
+                        a_, b_ = xs[k_], xs[k_ + 1]
+                        if (k_ + pw) % 2:
+                            a_, b_ = b_, a_
+                        f_ = f_ * AntiSymmetricTensor(
+                            "f", (a_,), (b_,), 1) ** (pw if k_ == pw_link
+                                                      else 1)
+                    t_ = f_ * NonSymmetricTensor("X", (xs[0],)) * \
+                        NonSymmetricTensor("Y", (xs[-1],))
+                    chains.append((t_, [xs[0]] if (L + pw) % 2 else []))
+    if quick:
+        chains = rng.sample(chains, 16)
+    for k in range(n + len(chains)):
         occ, virt = G.pool("o", 6), G.pool("v", 6)
         ntg = rng.choice([(1, 1), (0, 0), (2, 0), (1, 0)])
         tg = occ[:ntg[0]] + virt[:ntg[1]]
@@ -277,6 +299,9 @@ def run(ctx):
         p_, q_ = (rng.sample(pools[sp], 2) if rng.random() < 0.85
                   else [rng.choice(pools[sp])] * 2)
         f = AntiSymmetricTensor("f", (p_,), (q_,), rng.choice([0, 1]))
+        fixed_chain = None
+        if k >= n:
+            fixed_chain = chains[k - n]
         if rng.random() < 0.3:
             # powers of a Fock element (also written as f_pq f_qp)
             f = f ** rng.choice([2, 2, 3]) if rng.random() < 0.6 else \
@@ -284,12 +309,13 @@ def run(ctx):
         if rng.random() < 0.4:
             # further Fock elements, chained with the first one (sharing an
             # index) or independent
-            for _ in range(rng.randint(1, 2)):
+            for _ in range(rng.randint(1, 3)):
                 cand = [x for x in pools[sp] if x not in (p_, q_)]
                 r_ = rng.choice(cand)
                 a_, b_ = rng.choice([(q_, r_), (r_, q_), (p_, r_),
                                      (r_, rng.choice(cand))])
-                f = f * AntiSymmetricTensor("f", (a_,), (b_,), 1)
+                f = f * AntiSymmetricTensor("f", (a_,), (b_,), 1) ** \
+                    rng.choice([1, 1, 2, 3])
                 q_ = r_
         rest = G.random_term(rng, rng.randint(1, 2), pools,
                              names=["V", "t1", "t2", "X", "Y", "d"])
@@ -300,6 +326,9 @@ def run(ctx):
         if rng.random() < 0.3:
             den = bracket(rng, pools["o"], pools["v"], 1)
             term = term / den
+        if fixed_chain is not None:
+            term, tg = fixed_chain
+            p_, q_ = 0, 1
         E = Expr(term, target_idx=tg)
         try:
             Ed = E.copy().diagonalize_fock()
